@@ -351,7 +351,7 @@ def run(ctx):
         ad = ClosAdapter(L, c, info, ctx.seed)
         w = Walker(ctx, g, ad, 'replay.closure.%s' % c.name)
         ne = w.cover_edges(stutter=True)
-        npaths, complete = w.all_paths(3, budget=200000 if thorough else 25000)
+        npaths, complete = w.all_paths(4 if thorough else 3, budget=600000 if thorough else 25000)
         nr = w.random_walks(2000 if thorough else 40, 10, ctx.seed)
         ctx.stage('replay.closure', concretisation=c.describe(), graph_states=len(g.state), graph_edges=g.n_edges,
                   edges_replayed=ne, paths=npaths, paths_complete=complete, random_walks=nr, real_calls=w.steps)
